@@ -43,6 +43,7 @@ namespace vh
 uint64_t    tracked_live();
 std::string tracked_error();
 void        tracked_reset();
+void        tracked_set_copy_hook(void (*)());
 } // namespace vh
 
 using namespace vh;
@@ -149,6 +150,27 @@ static void lock_hook(cv::point p, const void*)
     // HM_SCHED
     if (p == cv::point::before_lock || (p == cv::point::after_unlock && g_sched.after_unlock_points))
         g_sched.yield_point();
+}
+
+// Pause inside the copy constructor of the harness's heap-owning value type (free-running rounds only): see values.hpp.
+static void value_copy_hook()
+{
+    if (g_hook_mode.load(std::memory_order_relaxed) != HM_DELAY || tl_tid < 0)
+        return;
+    uint64_t r = tl_next();
+    switch (r & 3)
+    {
+        case 0:
+            sched_yield();
+            break;
+        case 1: {
+            unsigned spins = (unsigned)((r >> 8) % 4000);
+            for (volatile unsigned i = 0; i < spins; ++i) {}
+            break;
+        }
+        default:
+            break;
+    }
 }
 
 // ---------------------------------------------------------------------------------------------
@@ -471,7 +493,7 @@ public:
     }
 
     // ---- program generation ------------------------------------------------------------------
-    RoundSpec make_round(uint64_t seed, int nthreads_lo, int nthreads_hi, int ops_lo, int ops_hi, bool typeset1)
+    RoundSpec make_round(uint64_t seed, int nthreads_lo, int nthreads_hi, int ops_lo, int ops_hi, bool typeset1, bool long_finds = false)
     {
         RoundSpec rs;
         Generator gen(seed);
@@ -553,6 +575,18 @@ public:
                     {
                         while (op.items.size() > 4)
                             op.items.pop_back();
+                        // a lookup range may be long (repeated keys): the longer the walk, the likelier another thread's write
+                        // lands inside it if the walk is not atomic; length costs the checker nothing (one atomic step)
+                        if (long_finds && (op.kind == FNDR || op.kind == FNDF) && rng.chance(1, 3))
+                        {
+                            int want = rng.range(6, 12);
+                            while ((int)op.items.size() < want)
+                            {
+                                Item it;
+                                it.k = (int)rng.below((uint64_t)c.universe);
+                                op.items.push_back(it);
+                            }
+                        }
                         if (op.items.size() < 2 && rng.chance(3, 4))
                         {
                             // ranges of 2-4 elements are where atomicity matters
@@ -585,7 +619,7 @@ public:
     // ---- free-running round -------------------------------------------------------------------
     void free_round(uint64_t seed, bool typeset1)
     {
-        RoundSpec               rs = make_round(seed, 2, 4, 1, 4, typeset1);
+        RoundSpec               rs = make_round(seed, 2, 4, 1, 4, typeset1, true);
         RoundOutcome            ro;
         std::unique_ptr<ICache> cache;
         Monitor                 mon(rs.cfg, &ctr);
@@ -608,6 +642,7 @@ public:
         std::atomic<bool>        go{false};
         g_acq_n.store(0);
         g_hook_mode.store(HM_DELAY);
+        tracked_set_copy_hook(&value_copy_hook);
         std::vector<std::thread> th;
         for (size_t t = 0; t < nt; ++t)
         {
